@@ -17,6 +17,13 @@ mod visitors;
 
 pub use rename::RenameExt;
 
+/// Hooks for the external verification harness (only with `--cfg typeshare_verif`).
+#[cfg(typeshare_verif)]
+pub mod verif_hooks {
+    pub use crate::target_os_check::verif_hooks::accept_target_os;
+    pub use crate::topsort::verif_hooks::{sort_by_indices, toposort_impl, topsort};
+}
+
 #[derive(Debug, Error)]
 #[allow(missing_docs)]
 pub enum ProcessInputError {
